@@ -2,6 +2,11 @@ import HcipyVerif.Lemmas.ModeBasis
 import Mathlib.Algebra.Order.Field.Basic
 import Mathlib.Algebra.Order.BigOperators.Group.List
 import Mathlib.Data.Complex.Basic
+import Mathlib.Algebra.Order.BigOperators.Group.Finset
+import Mathlib.Algebra.BigOperators.Ring.Finset
+import Mathlib.Algebra.BigOperators.Intervals
+import Mathlib.Tactic.Ring
+import Mathlib.Tactic.Linarith
 
 /-! Helper lemmas for the least-squares clause of C14. -/
 set_option linter.unusedSimpArgs false
@@ -75,5 +80,126 @@ theorem linComb_length {K : Type} [Zero K] [Add K] [Mul K] (b : Basis K) (hb : W
   cases b with
   | dense n m rows => simp [linComb, matvec, hb.1, Basis.npix]
   | sparse n m cols => simp [linComb, Basis.npix]
+
+
+/-! ## A solution of the normal equations minimises the residual
+
+The list-level definitions (`linComb`, `normalResidual`, `resid`) are first rewritten as finite
+sums over index ranges; the minimisation itself is the usual Pythagoras argument
+`‖r + d‖² = ‖r‖² + ‖d‖² + 2 Re⟨d, r⟩` with `⟨A w, r⟩ = ⟨w, Aᴴ r⟩ = 0`. -/
+
+open Finset in
+/-- the core over index functions; `conj`/`re`/`N` abstract the scalar field (`id`/`id`/`z²` for a
+real field, complex conjugation/`Re`/`|z|²` for ℂ) -/
+theorem fin_normal_min {K R : Type} [CommRing K] [Field R] [LinearOrder R] [IsStrictOrderedRing R]
+    (conj : K →+* K) (re : K →+ R) (N : K → R)
+    (hN : ∀ a b, N (a + b) = N a + N b + 2 * re (conj b * a)) (hNn : ∀ z, 0 ≤ N z)
+    (n m : Nat) (A : Nat → Nat → K) (xs zs ys : Nat → K)
+    (h : ∀ j ∈ range m, ∑ i ∈ range n, conj (A i j) * ((∑ j ∈ range m, A i j * xs j) - ys i) = 0) :
+    ∑ i ∈ range n, N ((∑ j ∈ range m, A i j * xs j) - ys i) ≤
+    ∑ i ∈ range n, N ((∑ j ∈ range m, A i j * zs j) - ys i) := by
+  set r : Nat → K := fun i => (∑ j ∈ range m, A i j * xs j) - ys i with hr
+  set d : Nat → K := fun i => ∑ j ∈ range m, A i j * (zs j - xs j) with hd
+  have hz : ∀ i, (∑ j ∈ range m, A i j * zs j) - ys i = r i + d i := by
+    intro i
+    simp only [hr, hd, mul_sub, Finset.sum_sub_distrib]
+    ring
+  have hcross : ∑ i ∈ range n, conj (d i) * r i = 0 := by
+    simp only [hd, map_sum, map_mul, Finset.sum_mul]
+    rw [Finset.sum_comm]
+    apply Finset.sum_eq_zero
+    intro j hj
+    have := h j hj
+    calc ∑ i ∈ range n, conj (A i j) * conj (zs j - xs j) * r i
+        = conj (zs j - xs j) * ∑ i ∈ range n, conj (A i j) * r i := by
+          rw [Finset.mul_sum]; apply Finset.sum_congr rfl; intro i _; ring
+      _ = 0 := by rw [this, mul_zero]
+  have hsum : ∑ i ∈ range n, N (r i + d i) =
+      ∑ i ∈ range n, N (r i) + ∑ i ∈ range n, N (d i) := by
+    simp only [hN, Finset.sum_add_distrib]
+    rw [← Finset.mul_sum, ← map_sum, hcross, map_zero, mul_zero, add_zero]
+  simp only [hz]
+  rw [hsum]
+  have : 0 ≤ ∑ i ∈ range n, N (d i) := Finset.sum_nonneg fun i _ => hNn _
+  linarith
+
+theorem sum_map_range {M : Type} [AddCommMonoid M] (n : Nat) (f : Nat → M) :
+    ((List.range n).map f).sum = ∑ i ∈ Finset.range n, f i := by
+  induction n with
+  | zero => simp
+  | succ n ih => rw [List.range_succ, List.map_append, List.sum_append, ih, Finset.sum_range_succ]; simp
+
+theorem list_eq_range_getD {α} (l : List α) (d : α) : l = (List.range l.length).map (l.getD · d) := by
+  have := map_eq_range_map_getD l d id
+  simpa using this
+
+theorem zipWith_range {α β γ} (n : Nat) (f : α → β → γ) (g : Nat → α) (x : List β) (d : β) (hx : x.length = n) :
+    List.zipWith f ((List.range n).map g) x = (List.range n).map fun i => f (g i) (x.getD i d) := by
+  conv_lhs => rw [list_eq_range_getD x d, hx]
+  rw [List.zipWith_map, List.zipWith_self]
+
+section
+variable {K : Type} [CommSemiring K]
+
+theorem dot_range_list (n : Nat) (f : Nat → K) (x : List K) (hx : x.length = n) :
+    dot ((List.range n).map f) x = ∑ i ∈ Finset.range n, f i * x.getD i 0 := by
+  unfold dot
+  rw [zipWith_range n _ f x 0 hx, sum_map_range]
+
+theorem linComb_fn (b : Basis K) (hb : WF b) (x : List K) (hx : x.length = b.nmodes) :
+    linComb b x = (List.range b.npix).map fun i => ∑ j ∈ Finset.range b.nmodes, ent b i j * x.getD j 0 := by
+  rw [linComb_eq b hb]
+  unfold toDense table matvec
+  rw [List.map_map]
+  apply List.map_congr_left
+  intro i _
+  exact dot_range_list _ _ _ hx
+end
+
+section
+variable {K : Type} [CommRing K]
+
+theorem normalResidual_fn (conj : K → K) (b : Basis K) (x y : List K) (hx : x.length = b.nmodes)
+    (hy : y.length = b.npix) :
+    normalResidual conj b x y = (List.range b.nmodes).map fun j =>
+      ∑ i ∈ Finset.range b.npix, conj (ent b i j) *
+        ((∑ j' ∈ Finset.range b.nmodes, ent b i j' * x.getD j' 0) - y.getD i 0) := by
+  unfold normalResidual adjRows column matvec toDense table
+  rw [List.map_map, List.map_map]
+  apply List.map_congr_left
+  intro j _
+  simp only [Function.comp]
+  rw [zipWith_range b.npix _ _ y 0 hy, List.map_map]
+  rw [dot_range_list _ _ _ (by simp)]
+  apply Finset.sum_congr rfl
+  intro i hi
+  simp only [Function.comp]
+  rw [getD_map_range _ _ _ _ (Finset.mem_range.mp hi), dot_range_list _ _ _ hx]
+
+theorem resid_fn {R : Type} [Field R] [LinearOrder R] [IsStrictOrderedRing R] (N : K → R) (n : Nat)
+    (U : Nat → K) (y : List K) (hy : y.length = n) :
+    resid N ((List.range n).map U) y = ∑ i ∈ Finset.range n, N (U i - y.getD i 0) := by
+  unfold resid
+  rw [zipWith_range n _ U y 0 hy, List.map_map, sum_map_range]
+  rfl
+end
+
+section
+variable {K R : Type} [CommRing K] [Field R] [LinearOrder R] [IsStrictOrderedRing R]
+
+/-- **A solution of the normal equations `Aᴴ (A x − y) = 0` minimises `‖A z − y‖²`** (generic
+scalar; every storage form). -/
+theorem normal_eq_minimises_gen (conj : K →+* K) (re : K →+ R) (N : K → R)
+    (hN : ∀ a b, N (a + b) = N a + N b + 2 * re (conj b * a)) (hNn : ∀ z, 0 ≤ N z)
+    (b : Basis K) (hb : WF b) (x y : List K) (hx : x.length = b.nmodes) (hy : y.length = b.npix)
+    (h : ∀ t ∈ normalResidual conj b x y, t = 0) (z : List K) (hz : z.length = b.nmodes) :
+    resid N (linComb b x) y ≤ resid N (linComb b z) y := by
+  rw [linComb_fn b hb x hx, linComb_fn b hb z hz, resid_fn N _ _ y hy, resid_fn N _ _ y hy]
+  apply fin_normal_min conj re N hN hNn
+  intro j hj
+  apply h
+  rw [normalResidual_fn conj b x y hx hy]
+  exact List.mem_map.mpr ⟨j, List.mem_range.mpr (Finset.mem_range.mp hj), rfl⟩
+end
 
 end HcipyVerif.ModeBasis
